@@ -8,32 +8,31 @@ use rip_kernel::{Event, EventKind, ProviderEventStatus};
 use rip_provider_openresponses::{EventFrameMapper, ParsedEvent, ParsedEventKind, SseDecoder, ValidationOptions};
 use rv::*;
 use serde_json::{json, Value};
+use std::collections::BTreeMap;
 use std::path::PathBuf;
 
-fn fnv(s: &str) -> u64 {
-    let mut h: u64 = 0xcbf29ce484222325;
-    for b in s.as_bytes() {
-        h ^= *b as u64;
-        h = h.wrapping_mul(0x100000001b3);
-    }
-    h | 1 // never 0 (0 = "no errors")
-}
-fn hl(v: &[String]) -> u64 {
-    if v.is_empty() {
-        0
-    } else {
-        fnv(&v.join("\u{1}"))
-    }
-}
-fn hv(v: &Value) -> u64 {
-    fnv(&serde_json::to_string(v).unwrap())
-}
 fn enc_ostr(out: &mut Vec<u64>, o: Option<&str>) {
     match o {
         None => out.push(0),
         Some(s) => {
             out.push(1);
             enc_str(out, s)
+        }
+    }
+}
+fn enc_strs(out: &mut Vec<u64>, v: &[String]) {
+    out.push(v.len() as u64);
+    for s in v {
+        enc_str(out, s);
+    }
+}
+/// the value as serde_json::to_string prints it (mirrored by `print` of coq/Base/Json.v on the model's value)
+fn enc_ojson(out: &mut Vec<u64>, v: Option<&Value>) {
+    match v {
+        None => out.push(0),
+        Some(v) => {
+            out.push(1);
+            enc_str(out, &serde_json::to_string(v).unwrap())
         }
     }
 }
@@ -44,6 +43,7 @@ fn status_code(s: &ProviderEventStatus) -> u64 {
         ProviderEventStatus::Event => 2,
     }
 }
+/// the CONTENT of a frame: status, event name, raw text, data as canonical JSON text, every error string
 fn enc_frame(out: &mut Vec<u64>, e: &Event) {
     match &e.kind {
         EventKind::ProviderEvent { status, event_name, data, raw, errors, response_errors, .. } => {
@@ -52,9 +52,9 @@ fn enc_frame(out: &mut Vec<u64>, e: &Event) {
             out.push(status_code(status));
             enc_ostr(out, event_name.as_deref());
             enc_ostr(out, raw.as_deref());
-            enc_opt(out, data.as_ref().map(hv));
-            out.push(hl(errors));
-            out.push(hl(response_errors));
+            enc_ojson(out, data.as_ref());
+            enc_strs(out, errors);
+            enc_strs(out, response_errors);
         }
         EventKind::OutputTextDelta { delta } => {
             out.push(1);
@@ -73,14 +73,117 @@ fn canon_frames(fs: &[Event]) -> Vec<u64> {
     out
 }
 
-// ------------------------------------------------------------------ classification table
-#[derive(Clone, Debug)]
-enum Cls {
-    Invalid(u64),
-    Event(u64, u64, u64, Option<String>),
+// ------------------------------------------------------------------ tables for the model's abstract functions
+/// `absfns` of coq/Model/SseJson.v as finite tables: computed with serde_json and the validators only, never
+/// from a chunked run
+#[derive(Default, Clone)]
+struct Tables {
+    err: BTreeMap<String, String>,
+    num: BTreeMap<String, Option<String>>,
+    val: BTreeMap<String, (Vec<String>, Vec<String>)>,
 }
-type Key = (Option<String>, String);
-
+fn is_num_char(c: char) -> bool {
+    c.is_ascii_digit() || matches!(c, '-' | '+' | '.' | 'e' | 'E')
+}
+/// the number tokens of a JSON text (maximal runs of number characters outside strings)
+fn number_tokens(raw: &str) -> Vec<String> {
+    let cs: Vec<char> = raw.chars().collect();
+    let mut i = 0;
+    let mut out = vec![];
+    while i < cs.len() {
+        let c = cs[i];
+        if c == '"' {
+            i += 1;
+            while i < cs.len() && cs[i] != '"' {
+                if cs[i] == '\\' {
+                    i += 1;
+                }
+                i += 1;
+            }
+            i += 1;
+        } else if c == '-' || c.is_ascii_digit() {
+            let st = i;
+            while i < cs.len() && is_num_char(cs[i]) {
+                i += 1;
+            }
+            out.push(cs[st..i].iter().collect());
+        } else {
+            i += 1;
+        }
+    }
+    out
+}
+fn validation(compat: bool) -> ValidationOptions {
+    if compat {
+        ValidationOptions::compat_missing_item_ids()
+    } else {
+        ValidationOptions::strict()
+    }
+}
+/// (errors, response_errors) of schema validation for a value: the real decoder on the one-event rendering of the
+/// printed value without an event name (so no name-mismatch error is mixed in); in strict mode cross-checked
+/// against direct calls of the validators
+fn validation_of(v: &Value, compat: bool) -> ((Vec<String>, Vec<String>), Option<String>) {
+    let text = format!("data: {}\n\n", serde_json::to_string(v).unwrap());
+    let mut d = SseDecoder::new_with_validation(validation(compat));
+    let evs = d.push(&text);
+    if evs.len() != 1 || evs[0].kind != ParsedEventKind::Event || evs[0].data.as_ref() != Some(v) {
+        return ((vec![], vec![]), Some(format!("the one-event rendering of the value {} does not decode to one event with that value", v)));
+    }
+    let got = (evs[0].errors.clone(), evs[0].response_errors.clone());
+    if !compat {
+        let direct = (
+            rip_openresponses::validate_stream_event(v).err().unwrap_or_default(),
+            v.get("response").map(|r| rip_openresponses::validate_response_resource(r).err().unwrap_or_default()).unwrap_or_default(),
+        );
+        if direct != got {
+            return (got, Some(format!("strict validation errors of {} differ from the validators' own: {:?} vs {:?}", v, evs[0].errors, direct)));
+        }
+    }
+    (got, None)
+}
+impl Tables {
+    fn add_payload(&mut self, raw: &str, compat: bool, problems: &mut Vec<String>) {
+        if raw == "[DONE]" {
+            return;
+        }
+        for t in number_tokens(raw) {
+            if t.len() <= 15 && t.chars().all(|c| c.is_ascii_digit()) {
+                continue; // a plain small integer: the model never asks
+            }
+            let spelled = serde_json::from_str::<Value>(&t).ok().map(|v| serde_json::to_string(&v).unwrap());
+            self.num.insert(t, spelled);
+        }
+        match serde_json::from_str::<Value>(raw) {
+            Err(e) => {
+                self.err.insert(raw.to_string(), e.to_string());
+            }
+            Ok(v) => {
+                if rip_kernel::json_nesting(&v) <= rip_kernel::MAX_PAYLOAD_NESTING {
+                    let key = serde_json::to_string(&v).unwrap();
+                    if !self.val.contains_key(&key) {
+                        let (r, p) = validation_of(&v, compat);
+                        if let Some(p) = p {
+                            problems.push(p);
+                        }
+                        self.val.insert(key, r);
+                    }
+                }
+            }
+        }
+    }
+    fn coq(&self) -> String {
+        let e: Vec<(&String, &String)> = self.err.iter().collect();
+        let n: Vec<(&String, &Option<String>)> = self.num.iter().collect();
+        let v: Vec<(&String, &(Vec<String>, Vec<String>))> = self.val.iter().collect();
+        format!(
+            "{{| t_err := {}; t_num := {}; t_val := {} |}}",
+            coq_list(&e, |(k, m)| format!("({}, {})", coq_str(k), coq_str(m))),
+            coq_list(&n, |(k, m)| format!("({}, {})", coq_str(k), coq_opt(m, |s| coq_str(s)))),
+            coq_list(&v, |(k, (a, b))| format!("({}, ({}, {}))", coq_str(k), coq_list(a, |s| coq_str(s)), coq_list(b, |s| coq_str(s))))
+        )
+    }
+}
 /// lossy decoding as the pipe is meant to do it (std::str::from_utf8 driven; an incomplete sequence
 /// at the very end is dropped) — independent of the pipe
 fn harness_lossy(mut b: &[u8]) -> String {
@@ -104,85 +207,22 @@ fn harness_lossy(mut b: &[u8]) -> String {
         }
     }
 }
-fn validation(compat: bool) -> ValidationOptions {
-    if compat {
-        ValidationOptions::compat_missing_item_ids()
-    } else {
-        ValidationOptions::strict()
-    }
-}
-/// classify one (event name, payload) pair: kind / data / delta computed here with serde_json, the
-/// validator digests by the real decoder on the canonical one-event rendering
-fn classify(key: &Key, compat: bool) -> (Cls, Option<String>) {
-    let (ev, raw) = key;
-    let mut text = String::new();
-    if let Some(e) = ev {
-        text.push_str(&format!("event: {e}\n"));
-    }
-    for l in raw.split('\n') {
-        text.push_str(&format!("data: {l}\n"));
-    }
-    text.push('\n');
-    let mut d = SseDecoder::new_with_validation(validation(compat));
-    let evs = d.push(&text);
-    let own: Result<Value, _> = serde_json::from_str::<Value>(raw);
-    if evs.len() != 1 || &evs[0].raw != raw || &evs[0].event != ev {
-        return (Cls::Invalid(1), Some(format!("canonical rendering of {key:?} does not decode to one event with that payload")));
-    }
-    let p = &evs[0];
-    match (&p.kind, own) {
-        (ParsedEventKind::InvalidJson, Err(_)) => (Cls::Invalid(hl(&p.errors)), None),
-        (ParsedEventKind::Event, Ok(v)) => {
-            let delta = if v.get("type").and_then(|t| t.as_str()) == Some("response.output_text.delta") && v.is_object() {
-                v.get("delta").and_then(|d| d.as_str()).map(|s| s.to_string())
-            } else {
-                None
-            };
-            let mut problem = None;
-            if p.data.as_ref() != Some(&v) {
-                problem = Some(format!("decoder data differs from serde_json::from_str of the payload {raw:?}"));
-            }
-            (Cls::Event(hv(&v), hl(&p.errors), hl(&p.response_errors), delta), problem)
-        }
-        (k, own) => (Cls::Invalid(1), Some(format!("decoder kind {k:?} but serde_json says ok={} for payload {raw:?}", own.is_ok()))),
-    }
-}
-fn table_for(text: &str, compat: bool, extra: &[Key]) -> (Vec<(Key, Cls)>, Vec<String>) {
+/// tables for every payload of a text (the payloads are enumerated by the real decoder on the whole text: a payload
+/// the chunked run produces and this one does not is missing from the tables, so the model answers with defaults
+/// and the case disagrees)
+fn tables_for(text: &str, compat: bool, extra: &[String]) -> (Tables, Vec<String>) {
     let mut d = SseDecoder::new_with_validation(validation(compat));
     let mut evs = d.push(text);
     evs.extend(d.finish());
-    let mut keys: Vec<Key> = extra.to_vec();
-    for e in &evs {
-        if e.kind != ParsedEventKind::Done {
-            keys.push((e.event.clone(), e.raw.clone()));
-        }
-    }
-    keys.sort();
-    keys.dedup();
+    let mut t = Tables::default();
     let mut problems = vec![];
-    let t = keys
-        .into_iter()
-        .map(|k| {
-            let (c, p) = classify(&k, compat);
-            if let Some(p) = p {
-                problems.push(p);
-            }
-            (k, c)
-        })
-        .collect();
+    for raw in extra {
+        t.add_payload(raw, compat, &mut problems);
+    }
+    for e in &evs {
+        t.add_payload(&e.raw, compat, &mut problems);
+    }
     (t, problems)
-}
-fn coq_ostr(o: &Option<String>) -> String {
-    coq_opt(o, |s| coq_str(s))
-}
-fn coq_table(t: &[(Key, Cls)]) -> String {
-    coq_list(t, |(k, c)| {
-        let cs = match c {
-            Cls::Invalid(e) => format!("CInvalid {e}"),
-            Cls::Event(d, e, r, dl) => format!("CEvent {d} {e} {r} {}", coq_ostr(dl)),
-        };
-        format!("({}, {}, {})", coq_ostr(&k.0), coq_str(&k.1), cs)
-    })
 }
 
 // ------------------------------------------------------------------ running the implementation
@@ -217,25 +257,118 @@ fn split_at_cuts(body: &[u8], cuts: &[usize]) -> Vec<Vec<u8>> {
 }
 
 // ------------------------------------------------------------------ generators
-const NAMES: [&str; 7] = ["response.output_text.delta", "response.created", "e", "x y", "é\u{a0}z", "message", "response.output_item.done"];
-const TEXTS: [&str; 10] = ["hi", "", " ", "é", "€uro", "😀", "a\\nb", "x\u{2003}y", "\u{feff}", "tab\\t"];
+const NAMES: [&str; 9] = ["response.output_text.delta", "response.created", "e", "x y", "é\u{a0}z", "message", "response.output_item.done", "response.output_text.delta", "response.completed"];
+const OTD: &str = "response.output_text.delta";
+/// JSON string literals (with the quotes): escapes of every kind, raw non-ASCII, surrogate pairs
+const STRS: [&str; 16] = [
+    "\"hi\"", "\"\"", "\" \"", "\"é\"", "\"€uro\"", "\"😀\"", "\"a\\nb\"", "\"x\u{2003}y\"", "\"\u{feff}\"", "\"tab\\t\\\"q\\\"\\\\\"",
+    "\"\\u00e9\\u20AC\"", "\"\\ud83d\\ude00!\"", "\"sl\\/ash\\b\\f\\r\"", "\"\\u0000\\u001f\"", "\"\u{7f}\u{80}\u{10ffff}\"", "\"data: x\"",
+];
+/// number tokens: plain integers at the u64 / i64 borders, and everything serde_json re-spells or refuses
+const NUMS: [&str; 26] = [
+    "0", "7", "-1", "18446744073709551615", "18446744073709551616", "-9223372036854775808", "-9223372036854775809", "9223372036854775808",
+    "-0", "1.0", "1.50", "1e2", "1E+2", "-1e-2", "0.1", "123456789012345678901234567890", "1.0000000000000001", "5e-324", "1e308", "-0.0",
+    "0e0", "0E-5", "1e400", "-1e999", "100000000000000000000000", "0.30000000000000004",
+];
+fn gen_scalar(r: &mut Rng) -> String {
+    match r.below(6) {
+        0 => "null".into(),
+        1 => (*r.pick(&["true", "false"][..])).to_string(),
+        2 | 3 => (*r.pick(&NUMS[..21])).to_string(),
+        _ => (*r.pick(&STRS[..])).to_string(),
+    }
+}
+fn gen_ws(r: &mut Rng) -> &'static str {
+    *r.pick(&["", "", "", " ", "  ", "\t", " \t "][..])
+}
+fn gen_value(r: &mut Rng, depth: u32) -> String {
+    if depth == 0 || r.chance(1, 2) {
+        return gen_scalar(r);
+    }
+    if r.chance(1, 2) {
+        let n = r.below(4);
+        let items: Vec<String> = (0..n).map(|_| format!("{}{}{}", gen_ws(r), gen_value(r, depth - 1), gen_ws(r))).collect();
+        format!("[{}{}]", if n == 0 { gen_ws(r) } else { "" }, items.join(","))
+    } else {
+        let n = r.below(4);
+        // keys: unsorted, duplicates, escaped spellings of the same key, non-ASCII
+        let items: Vec<String> = (0..n)
+            .map(|_| {
+                let k = *r.pick(&["\"b\"", "\"a\"", "\"a\"", "\"\\u0061\"", "\"type\"", "\"é\"", "\"Z\"", "\"\"", "\"delta\"", "\"aa\""][..]);
+                format!("{}{}{}:{}{}{}", gen_ws(r), k, gen_ws(r), gen_ws(r), gen_value(r, depth - 1), gen_ws(r))
+            })
+            .collect();
+        format!("{{{}{}}}", if n == 0 { gen_ws(r) } else { "" }, items.join(","))
+    }
+}
+fn nested(open: &str, close: &str, inner: &str, n: usize) -> String {
+    format!("{}{}{}", open.repeat(n), inner, close.repeat(n))
+}
+/// the data values of one event (one per data line); never start with whitespace, never end with CR
 fn gen_payload(r: &mut Rng) -> Vec<String> {
-    // the data values of one event (one per data line); never start with whitespace, never end with CR
-    match r.below(12) {
-        0 | 1 | 2 => vec![format!("{{\"type\":\"response.output_text.delta\",\"delta\":\"{}\"}}", r.pick(&TEXTS[..]))],
-        3 => vec![
-            "{\"type\":\"response.output_text.delta\",".to_string(),
-            format!("\"sequence_number\":{},", r.below(9)),
-            format!("\"delta\":\"{}\"}}", r.pick(&TEXTS[..])),
-        ],
-        4 => vec!["[DONE]".to_string()],
-        5 => vec![r.pick(&["{not json}", "", "[DONE] ", "[DONE]x", "nul\u{0}l", "{\"a\":", "]"][..]).to_string()],
-        6 => vec!["{\"type\":\"response.created\",\"sequence_number\":1,\"response\":{\"id\":\"resp_1\"}}".to_string()],
-        7 => vec![format!("{{\"type\":\"response.output_item.done\",\"output_index\":{},\"item\":{{\"type\":\"function_call\",\"id\":\"i1\",\"call_id\":\"c1\",\"name\":\"ls\",\"arguments\":\"{{}}\"}}}}", r.below(3))],
+    let one = |s: String| vec![s];
+    match r.below(24) {
+        0 | 1 | 2 => one(format!("{{\"type\":\"{OTD}\",\"delta\":{}}}", r.pick(&STRS[..]))),
+        3 => vec![format!("{{\"type\":\"{OTD}\","), format!("\"sequence_number\":{},", r.below(9)), format!("\"delta\":{}}}", r.pick(&STRS[..]))],
+        4 => one("[DONE]".to_string()),
+        5 => one(
+            r.pick(
+                &[
+                    "{not json}", "", "[DONE] ", "[DONE]x", "nul\u{0}l", "{\"a\":", "]", "{'a':1}", "{\"a\":01}", "{\"a\":1,}", "[1 2]", "\"\\ud800\"", "\"\\ude00\\ud83d\"", "\"\\x\"",
+                    "tru", "nul", "{\"a\" 1}", "1 2", "\u{feff}{}", "{\"a\":\"\t\"}", "-", "1.", ".5", "1e", "+1", "NaN", "{\"a\":1}}", "[1e400]", "{\"type\":\"response.output_text.delta\",\"delta\":\"x\",\"n\":-1e999}",
+                    "\"\\u12\"", "\"unterminated", "[\"a\",]", "{,}", "[DONE]\u{a0}",
+                ][..],
+            )
+            .to_string(),
+        ),
+        6 => one("{\"type\":\"response.created\",\"sequence_number\":1,\"response\":{\"id\":\"resp_1\"}}".to_string()),
+        7 => one(format!("{{\"type\":\"response.output_item.done\",\"output_index\":{},\"item\":{{\"type\":\"function_call\",\"id\":\"i1\",\"call_id\":\"c1\",\"name\":\"ls\",\"arguments\":\"{{}}\"}}}}", r.below(3))),
         8 => vec!["héllo € 😀".to_string(), "second line".to_string()],
-        9 => vec!["\"just a string\"".to_string()],
-        10 => vec![format!("{{\"type\":\"response.output_text.delta\",\"delta\":{}}}", r.below(5))],
-        _ => vec!["{\"type\":\"response.completed\",".to_string(), "".to_string(), "\"sequence_number\":2}".to_string()],
+        9 => one(gen_scalar(r)),
+        10 => one(format!("{{\"type\":\"{OTD}\",\"delta\":{}}}", r.pick(&["0", "null", "{\"s\":\"x\"}", "[\"x\"]", "true", "1.0"][..]))),
+        11 => vec!["{\"type\":\"response.completed\",".to_string(), "".to_string(), "\"sequence_number\":2}".to_string()],
+        // the delta rules: key order, duplicate keys (the last one counts), type missing / not a string / nested / in an array
+        12 => one(format!("{{\"delta\":{},\"type\":\"{OTD}\"}}", r.pick(&STRS[..]))),
+        13 => one(format!("{{\"type\":\"{OTD}\",\"delta\":\"first\",\"delta\":{}}}", r.pick(&STRS[..]))),
+        14 => one(
+            (*r.pick(
+                &[
+                    "{\"type\":\"response.output_text.delta\",\"type\":\"response.created\",\"delta\":\"no\"}",
+                    "{\"type\":\"response.created\",\"delta\":\"yes\",\"type\":\"response.output_text.delta\"}",
+                    "{\"delta\":\"typeless\"}",
+                    "{\"type\":7,\"delta\":\"num type\"}",
+                    "{\"type\":null,\"delta\":\"null type\"}",
+                    "{\"x\":{\"type\":\"response.output_text.delta\",\"delta\":\"nested\"}}",
+                    "[{\"type\":\"response.output_text.delta\",\"delta\":\"in array\"}]",
+                    "{\"type\":\"response.output_text.delta \",\"delta\":\"trailing blank in type\"}",
+                    "{\"type\":\"response.output_text.done\",\"text\":\"full\",\"delta\":\"not a delta event\"}",
+                    "{\"\\u0074ype\":\"response.output_text.delta\",\"delta\":\"escaped key\"}",
+                    "{\"type\":\"response.output_text.\\u0064elta\",\"delta\":\"escaped type\"}",
+                    "{\"type\":\"response.reasoning.delta\",\"delta\":\"reasoning\"}",
+                ][..],
+            ))
+            .to_string(),
+        ),
+        // arbitrary values: whitespace, unsorted and duplicate keys, escapes, number spellings
+        15 | 16 | 17 => one(gen_value(r, 3)),
+        18 => one(format!("{}{}", gen_value(r, 2), r.pick(&["", " ", "\t", "  \t"][..]))),
+        19 => one(format!("[{}]", r.pick(&NUMS[..]))),
+        20 => one(format!("{{\"type\":\"{OTD}\",\"delta\":\"n\",\"n\":{}}}", r.pick(&NUMS[..]))),
+        // nesting around rip_kernel::MAX_PAYLOAD_NESTING (125) and serde_json's limit (127 parse, 128 refuse)
+        21 => {
+            let n = *r.pick(&[124usize, 125, 126, 127, 128, 129][..]);
+            one(match r.below(3) {
+                0 => nested("[", "]", "", n),
+                1 => nested("{\"a\":", "}", "1", n),
+                _ => format!("{{\"type\":\"{OTD}\",\"delta\":\"deep\",\"x\":{}}}", nested("[", "]", "0", n - 1)),
+            })
+        }
+        // a value spread over several data lines (the newline is JSON whitespace)
+        22 => {
+            let v = gen_value(r, 2);
+            vec!["{\"a\":".to_string(), format!("{v},"), "\"b\":[".to_string(), "1,".to_string(), "2]}".to_string()]
+        }
+        _ => one(format!("{{\"type\":\"{OTD}\",\"delta\":{},\"delta\":{}}}", r.pick(&STRS[..]), r.pick(&["1", "null", "\"last\""][..]))),
     }
 }
 struct Body {
@@ -315,8 +448,11 @@ fn gen_body(r: &mut Rng) -> Body {
         1 => {
             // the final blank line loses its LF but keeps a CR: finish() dispatches
             bytes.extend_from_slice(b"data: last\n\r");
+            // an event name set by a block WITHOUT data is still pending: SseDecoder resets current_event only when it
+            // dispatches (the WHATWG algorithm also resets it on a blank line with an empty data buffer; noted in
+            // notes/sse15.md, outside the property text)
             if let Some(e) = expected.as_mut() {
-                e.push((None, "last".to_string()));
+                e.push((cur_event.take(), "last".to_string()));
             }
             tags.push("cr-only-tail");
         }
@@ -421,21 +557,49 @@ fn check_expected(frames: &[Event], seq_end: u64, c: &PipeCase, expected: Option
         }
     }
     for (i, (ev, raw)) in exp.iter().enumerate() {
-        let EventKind::ProviderEvent { status, event_name, data, raw: fraw, .. } = &prov[i].kind else { unreachable!() };
+        let EventKind::ProviderEvent { status, event_name, data, raw: fraw, errors, response_errors, .. } = &prov[i].kind else { unreachable!() };
         let own: Result<Value, _> = serde_json::from_str::<Value>(raw);
         let ok = if raw == "[DONE]" {
-            *status == ProviderEventStatus::Done && fraw.as_deref() == Some(raw.as_str()) && event_name.is_none()
+            *status == ProviderEventStatus::Done && fraw.as_deref() == Some(raw.as_str()) && event_name.is_none() && data.is_none() && errors.is_empty()
         } else {
             match &own {
-                Err(_) => *status == ProviderEventStatus::InvalidJson && fraw.as_deref() == Some(raw.as_str()) && event_name == ev,
-                Ok(v) => *status == ProviderEventStatus::Event && data.as_ref() == Some(v) && event_name == ev,
+                // not JSON: the text is kept byte for byte, the only error is the parser's own message
+                Err(e) => {
+                    *status == ProviderEventStatus::InvalidJson
+                        && fraw.as_deref() == Some(raw.as_str())
+                        && event_name == ev
+                        && data.is_none()
+                        && errors == &vec![e.to_string()]
+                        && response_errors.is_empty()
+                }
+                // JSON too deep for a frame: kept as text
+                Ok(v) if rip_kernel::json_nesting(v) > rip_kernel::MAX_PAYLOAD_NESTING => {
+                    *status == ProviderEventStatus::InvalidJson && fraw.as_deref() == Some(raw.as_str()) && event_name == ev && data.is_none() && errors.len() == 1
+                }
+                // JSON: the value, which printed and parsed again is the same value; the name-mismatch error iff
+                // the SSE event name differs from a string `type`; in strict mode the other errors are the validators'
+                Ok(v) => {
+                    let reparsed = data.as_ref().map(|d| serde_json::from_str::<Value>(&serde_json::to_string(d).unwrap()).ok() == Some(d.clone())).unwrap_or(false);
+                    let ty = v.get("type").and_then(|t| t.as_str());
+                    let mis = match (ev, ty) {
+                        (Some(e), Some(t)) if e != t => Some(format!("event name '{e}' does not match type '{t}'")),
+                        _ => None,
+                    };
+                    let mut rest: Vec<String> = errors.clone();
+                    let mis_ok = match &mis {
+                        Some(m) => rest.pop().as_ref() == Some(m),
+                        None => !rest.iter().any(|e| e.starts_with("event name '")),
+                    };
+                    let val_ok = c.compat || rest == rip_openresponses::validate_stream_event(v).err().unwrap_or_default();
+                    *status == ProviderEventStatus::Event && data.as_ref() == Some(v) && fraw.is_none() && event_name == ev && reparsed && mis_ok && val_ok
+                }
             }
         };
         if !ok {
             return Some((format!("provider frame {i} does not carry generated event {:?} / payload {:?} unchanged (got {:?})", ev, raw, prov[i].kind), "payload_changed".into()));
         }
         if let Ok(v) = &own {
-            if v.get("type").and_then(|t| t.as_str()) == Some("response.output_text.delta") {
+            if v.is_object() && rip_kernel::json_nesting(v) <= rip_kernel::MAX_PAYLOAD_NESTING && v.get("type").and_then(|t| t.as_str()) == Some("response.output_text.delta") {
                 if let Some(d) = v.get("delta").and_then(|d| d.as_str()) {
                     want_text.push_str(d);
                 }
@@ -446,6 +610,34 @@ fn check_expected(frames: &[Event], seq_end: u64, c: &PipeCase, expected: Option
         return Some((format!("output text {text:?} is not the concatenation of the deltas {want_text:?}"), "text_not_concat_of_deltas".into()));
     }
     None
+}
+/// O4: the library's own reading of the provider frames (stream_transformers::extract_text_deltas: the payload's
+/// `type`, else the frame's event name) gives the same text as the OutputTextDelta frames, unless a payload
+/// WITHOUT a string `type` arrived under the SSE event name of a text delta (the mapper never looks at the event name).
+/// Returns (violation, diverged-for-the-stated-reason).
+fn check_extractor(frames: &[Event]) -> (Option<(String, String)>, bool) {
+    let lib: String = rip_provider_openresponses::extract_text_deltas(frames).concat();
+    let mut text = String::new();
+    let mut typeless_under_delta_name = false;
+    for f in frames {
+        match &f.kind {
+            EventKind::OutputTextDelta { delta } => text.push_str(delta),
+            EventKind::ProviderEvent { status: ProviderEventStatus::Event, event_name: Some(n), data, .. } if n == OTD => {
+                let has_type = matches!(data, Some(Value::Object(o)) if matches!(o.get("type"), Some(Value::String(_))));
+                if !has_type {
+                    typeless_under_delta_name = true;
+                }
+            }
+            _ => {}
+        }
+    }
+    if lib == text {
+        (None, false)
+    } else if typeless_under_delta_name {
+        (None, true)
+    } else {
+        (Some((format!("extract_text_deltas over the provider frames gives {lib:?}, the output_text_delta frames give {text:?}"), "text_not_concat_of_deltas".into())), false)
+    }
 }
 
 // ------------------------------------------------------------------ UTF-8 strings
@@ -541,9 +733,9 @@ fn run_decoder(chunks: &[String]) -> Vec<u64> {
         });
         enc_ostr(&mut out, e.event.as_deref());
         enc_str(&mut out, &e.raw);
-        out.push(e.data.as_ref().map(hv).unwrap_or(0));
-        out.push(hl(&e.errors));
-        out.push(hl(&e.response_errors));
+        enc_ojson(&mut out, e.data.as_ref());
+        enc_strs(&mut out, &e.errors);
+        enc_strs(&mut out, &e.response_errors);
         // the text delta the mapper derives
         let delta = match (&e.kind, &e.data) {
             (ParsedEventKind::Event, Some(v)) if v.is_object() && v.get("type").and_then(|t| t.as_str()) == Some("response.output_text.delta") => {
@@ -582,7 +774,7 @@ fn main() {
     let run = Runner::new();
     let mut r = Rng::new(a.seed);
     let thorough = a.thorough();
-    let mut w = CaseWriter::new(&a.out, "Model.Sse", "check_case", "model_obs", 60);
+    let mut w = CaseWriter::new(&a.out, "Model.SseJson", "check_case", "model_obs", 60);
     let mut distinct = Distinct::default();
 
     // ---- replay of one recorded case
@@ -604,6 +796,9 @@ fn main() {
     }
 
     // ---- pipe level
+    // does this build check u64 overflow?  (a frame numbered from u64::MAX: `*seq += 1` panics iff it does)
+    let overflow_checks = std::panic::catch_unwind(std::panic::AssertUnwindSafe(|| run.pipe(&[b"data: x\n\n".to_vec()], u64::MAX, false, None))).is_err();
+    res.bump(if overflow_checks { "build.overflow_checks_on" } else { "build.overflow_checks_off" });
     let nbodies = if thorough { 12000 } else { 450 };
     let mut bodies: Vec<(Body, PipeCase, Option<Vec<usize>>)> = vec![];
     for (pc, cuts) in corpus() {
@@ -611,12 +806,21 @@ fn main() {
     }
     for _ in 0..nbodies {
         let mut b = gen_body(&mut r);
-        let pc = PipeCase {
-            body: b.bytes.clone(),
-            off: *r.pick(&[0u64, 0, 1, 7, 1000, 1 << 40]),
-            compat: r.chance(1, 3),
-            terr: if r.chance(1, 10) { Some("connection reset by peer".to_string()) } else { None },
-        };
+        let compat = r.chance(1, 3);
+        let terr = if r.chance(1, 10) { Some("connection reset by peer".to_string()) } else { None };
+        // seq offsets: small, large, and right below 2^64: with n frames, u64::MAX - n is the largest offset whose
+        // numbering still fits (`*seq` ends at u64::MAX); one more overflows `*seq += frame_count`
+        let mut off = *r.pick(&[0u64, 0, 1, 7, 1000, 1 << 40, u64::MAX >> 1]);
+        if r.chance(1, 6) {
+            let n = std::panic::catch_unwind(std::panic::AssertUnwindSafe(|| run.pipe(&[b.bytes.clone()], 0, compat, terr.as_deref()).0.len() as u64)).unwrap_or(0);
+            let d = *r.pick(&[0u64, 0, 0, 1, 2, 5]);
+            off = u64::MAX - n - d;
+            if overflow_checks && r.chance(1, 3) {
+                off = (u64::MAX - n).saturating_add(*r.pick(&[1u64, 1, 2, 1000]));
+            }
+            b.tags.push("offset-near-u64-max");
+        }
+        let pc = PipeCase { body: b.bytes.clone(), off, compat, terr };
         // a stream that breaks with a transport error is never finish()ed: the event whose blank line was cut
         // short (CR-only tail) is an incomplete event then, not one the provider sent
         if pc.terr.is_some() && b.tags.contains(&"cr-only-tail") {
@@ -633,11 +837,44 @@ fn main() {
             parts.insert(0, c.clone());
         }
         res.evaluations += 1;
-        res.oracle_checks += parts.len() as u64;
         for t in &b.tags {
             res.bump(t);
         }
         res.bump(&format!("body_len={}", match n { 0..=20 => "0-20", 21..=80 => "21-80", 81..=200 => "81-200", _ => "200+" }));
+        // tables for the model (independent of any chunked run)
+        let text = harness_lossy(&pc.body);
+        let extra: Vec<String> = b.expected.as_ref().map(|e| e.iter().map(|x| x.1.clone()).collect()).unwrap_or_default();
+        let (table, problems) = if a.oracle_only() { (Tables::default(), vec![]) } else { tables_for(&text, pc.compat, &extra) };
+
+        // the number of frames this body gives from offset 0 decides whether the numbering fits into u64
+        let n_frames = std::panic::catch_unwind(std::panic::AssertUnwindSafe(|| run.pipe(&[pc.body.clone()], 0, pc.compat, pc.terr.as_deref()).0.len() as u64));
+        let Ok(n_frames) = n_frames else {
+            res.impl_panics += 1;
+            res.oracle_violations.push(OracleViolation { case_id: -1, what: "OpenResponsesSsePipe panicked".into(), class: "panic".into(), replay: case_json(pc, &[]) });
+            continue;
+        };
+        if pc.off.checked_add(n_frames).is_none() {
+            // out of the stated domain (seq_offset + frames < 2^64): the u64 additions overflow; with overflow checks
+            // the pipe panics (recorded, dispositioned in notes/sse15.md — not a violation), and the model says so
+            res.bump("seq_overflow.cases");
+            res.oracle_checks += 1;
+            let cuts = parts[parts.len() - 1].clone();
+            let chunks = split_at_cuts(&pc.body, &cuts);
+            let panicked = std::panic::catch_unwind(std::panic::AssertUnwindSafe(|| run.pipe(&chunks, pc.off, pc.compat, pc.terr.as_deref()))).is_err();
+            res.bump(if panicked { "seq_overflow.panicked" } else { "seq_overflow.wrapped" });
+            if panicked != overflow_checks {
+                res.oracle_violations.push(OracleViolation { case_id: -1, what: format!("offset {} + {} frames exceeds u64: expected {} but the pipe {}", pc.off, n_frames, if overflow_checks { "an overflow panic" } else { "wrapping" }, if panicked { "panicked" } else { "did not panic" }), class: "seq_overflow_unexpected".into(), replay: case_json(pc, &cuts) });
+            }
+            if !a.oracle_only() && panicked {
+                let term = format!("CPipe {} {} {} {} [99]", table.coq(), pc.off, coq_list(&chunks, |c| coq_bytes(c)), coq_opt(&pc.terr, |e| coq_str(e)));
+                let id = w.push(term);
+                if res.case_index.len() < 3000 {
+                    res.case_index.insert(id.to_string(), case_json(pc, &cuts));
+                }
+            }
+            continue;
+        }
+        res.oracle_checks += parts.len() as u64;
         let pc2 = pc.clone();
         let parts2 = parts.clone();
         let got = std::panic::catch_unwind(std::panic::AssertUnwindSafe(|| {
@@ -661,46 +898,48 @@ fn main() {
                     let small = shrink_vec(pc.body.clone(), |bs| {
                         let mut c = base.clone();
                         c.body = bs.to_vec();
+                        c.off = c.off.min(1 << 40);
                         let mut ps: Vec<Vec<usize>> = (0..=bs.len()).map(|i| vec![i]).collect();
                         ps.push((1..bs.len()).collect());
                         std::panic::catch_unwind(std::panic::AssertUnwindSafe(|| find_variant(&run, &c, &ps).is_some())).unwrap_or(false)
                     });
                     let mut c = pc.clone();
                     c.body = small.clone();
+                    c.off = c.off.min(1 << 40);
                     let mut ps: Vec<Vec<usize>> = (0..=small.len()).map(|i| vec![i]).collect();
                     ps.push((1..small.len()).collect());
                     let (cuts2, what) = find_variant(&run, &c, &ps).unwrap_or((cuts.clone(), "frames differ between partitions".into()));
                     viol.push((format!("frames depend on the chunking: {what}"), "chunking_variant_frames".into(), case_json(&c, &cuts2)));
                     flagged = true;
                 }
-                res.oracle_checks += 1;
+                res.oracle_checks += 2;
                 if let Some((what, class)) = check_expected(&f0, s0, pc, b.expected.as_ref()) {
+                    if !flagged {
+                        viol.push((what, class, case_json(pc, &[])));
+                    }
+                }
+                let (ex, diverged) = check_extractor(&f0);
+                if diverged {
+                    res.bump("extractor_vs_mapper.typeless_payload_under_delta_event_name");
+                }
+                if let Some((what, class)) = ex {
                     if !flagged {
                         viol.push((what, class, case_json(pc, &[])));
                     }
                 }
                 if !a.oracle_only() {
                     // model comparison: byte at a time (or the corpus cut) and one random partition
-                    let text = harness_lossy(&pc.body);
-                    let (table, problems) = table_for(&text, pc.compat, &[]);
                     for p in problems {
                         viol.push((p, "classification_mismatch".into(), case_json(pc, &[])));
                     }
-                    let th = pc.terr.as_ref().map(|e| hl(&[e.clone()]));
                     let chosen: Vec<Vec<usize>> = vec![parts[0].clone(), parts[parts.len() - 1 - (r.below(6) as usize)].clone()];
                     for cuts in chosen {
                         let chunks = split_at_cuts(&pc.body, &cuts);
                         let (f, s) = run.pipe(&chunks, pc.off, pc.compat, pc.terr.as_deref());
                         let mut exp = vec![s, f.len() as u64];
                         exp.extend(canon_frames(&f));
-                        let term = format!(
-                            "CPipe true {} {} {} {} {}",
-                            coq_table(&table),
-                            pc.off,
-                            coq_list(&chunks, |c| coq_bytes(c)),
-                            coq_opt(&th, |h| format!("{h}")),
-                            coq_list_n(&exp)
-                        );
+                        enc_strs(&mut exp, &rip_provider_openresponses::extract_text_deltas(&f));
+                        let term = format!("CPipe {} {} {} {} {}", table.coq(), pc.off, coq_list(&chunks, |c| coq_bytes(c)), coq_opt(&pc.terr, |e| coq_str(e)), coq_list_n(&exp));
                         let id = w.push(term);
                         ids.push(id);
                         if res.case_index.len() < 3000 {
@@ -759,8 +998,8 @@ fn main() {
             if whole != exp {
                 res.oracle_violations.push(OracleViolation { case_id: -1, what: "SseDecoder events depend on the chunking".into(), class: "chunking_variant_frames".into(), replay: json!({"chunks": chunks}) });
             }
-            let (table, _) = table_for(&text, false, &[]);
-            let id = w.push(format!("CDec {} {} {}", coq_table(&table), coq_list(&chunks, |c| coq_str(c)), coq_list_n(&exp)));
+            let (table, _) = tables_for(&text, false, &[]);
+            let id = w.push(format!("CDec {} {} {}", table.coq(), coq_list(&chunks, |c| coq_str(c)), coq_list_n(&exp)));
             if res.case_index.len() < 4000 {
                 res.case_index.insert(id.to_string(), json!({"decoder_chunks": chunks}));
             }
